@@ -97,7 +97,8 @@ pub fn generate(ctx: &mut Ctx) {
     for i in 0..n {
         let mut rng = ctx.rng("hist", i);
         let mut o = gen::Opts::new(rng.chance(1, 2));
-        o.max_segs = 8;
+        o.max_segs = if rng.chance(1, 8) { 30 } else { 8 };
+        o.long = !ctx.tiny() && rng.chance(1, 10);
         o.bad_pct = rng.chance(1, 5);
         let kind = rng.pick(&[0u64, 0, 0, 1, 1, 2]);
         let route = rng.below(4) as u64;
